@@ -60,7 +60,7 @@ def generate(seed: int, tier: str) -> Dict[str, Any]:
         lo, hi = r.choice([(-1.0, 1.0), (-0.5, 0.5), (0.0, 1.0), (-1.0, 0.0), (0.5, 1.0), (-0.2, 0.3), (0.1, 0.2)])
         graph = {"enabled": True, "coactivation_threshold": r.choice([0.0, 0.2, 0.5, 1.0]), "observe_top_k": r.choice([1, 2, 3, 64]),
                  "pair_cap_per_obs": r.choice([0, 1, 2, 2048]),
-                 "update": {"mode": r.choice(["additive", "proportional"]), "alpha": r.choice([0.02, 0.3, 0.7, 1.5]), "clamp_min": lo, "clamp_max": hi},
+                 "update": {"mode": r.choice(["additive", "proportional"]), "alpha": r.choice([0.02, 0.3, 0.7, 1.5, 1e308, float("inf")]), "clamp_min": lo, "clamp_max": hi},
                  "decay": {"half_life_turns": r.choice([1, 2, 10, 200]), "floor": r.choice([0.0, 0.01, 0.1])},
                  "merge": {"enabled": True, "min_size": r.choice([2, 3]), "min_avg_w": r.choice([0.0, 0.2])},
                  "split": {"enabled": True, "weak_edge_thresh": 0.0, "min_component_size": 2},
